@@ -380,7 +380,7 @@ void exhaustive(NifFile& nif, int depth, const std::string& hist, long& sequence
 }
 
 struct Plan { int depth; int randomSeqs; int seqLen; };
-Plan plan() { return g_cfg.tier ? Plan{4, 6000, 60} : Plan{3, 180, 25}; }
+Plan plan() { return g_cfg.tier ? Plan{4, 6000, 60} : Plan{3, 600, 25}; }
 const int NSMALL = 5;
 static const char* SMALLV[] = {"OB", "SK", "FO4"};
 
